@@ -17,18 +17,20 @@ use super::header::masks;
 
 /// Returns the packet id from the header buffer
 pub fn id(buffer: &[u8]) -> crate::Result<u16> {
-    buffer[..2]
-        .try_into()
+    buffer
+        .get(..2)
+        .and_then(|bytes| bytes.try_into().ok())
         .map(u16::from_be_bytes)
-        .map_err(|_| crate::SimpleDnsError::InvalidHeaderData)
+        .ok_or(crate::SimpleDnsError::InvalidHeaderData)
 }
 
 /// Returns the questions count from the header buffer
 pub fn questions(buffer: &[u8]) -> crate::Result<u16> {
-    buffer[4..6]
-        .try_into()
+    buffer
+        .get(4..6)
+        .and_then(|bytes| bytes.try_into().ok())
         .map(u16::from_be_bytes)
-        .map_err(|_| crate::SimpleDnsError::InvalidHeaderData)
+        .ok_or(crate::SimpleDnsError::InvalidHeaderData)
 }
 
 #[cfg(test)]
@@ -39,10 +41,11 @@ pub(crate) fn set_questions(buffer: &mut [u8], question_count: u16) {
 
 /// Returns the answers count from the header buffer
 pub fn answers(buffer: &[u8]) -> crate::Result<u16> {
-    buffer[6..8]
-        .try_into()
+    buffer
+        .get(6..8)
+        .and_then(|bytes| bytes.try_into().ok())
         .map(u16::from_be_bytes)
-        .map_err(|_| crate::SimpleDnsError::InvalidHeaderData)
+        .ok_or(crate::SimpleDnsError::InvalidHeaderData)
 }
 
 #[cfg(test)]
@@ -53,10 +56,11 @@ pub(crate) fn set_answers(buffer: &mut [u8], answers_count: u16) {
 
 /// Returns the name servers count from the header buffer
 pub fn name_servers(buffer: &[u8]) -> crate::Result<u16> {
-    buffer[8..10]
-        .try_into()
+    buffer
+        .get(8..10)
+        .and_then(|bytes| bytes.try_into().ok())
         .map(u16::from_be_bytes)
-        .map_err(|_| crate::SimpleDnsError::InvalidHeaderData)
+        .ok_or(crate::SimpleDnsError::InvalidHeaderData)
 }
 
 #[cfg(test)]
@@ -67,10 +71,11 @@ pub(crate) fn set_name_servers(buffer: &mut [u8], name_servers_count: u16) {
 
 /// Returns the additional records from the header buffer
 pub fn additional_records(buffer: &[u8]) -> crate::Result<u16> {
-    buffer[10..12]
-        .try_into()
+    buffer
+        .get(10..12)
+        .and_then(|bytes| bytes.try_into().ok())
         .map(u16::from_be_bytes)
-        .map_err(|_| crate::SimpleDnsError::InvalidHeaderData)
+        .ok_or(crate::SimpleDnsError::InvalidHeaderData)
 }
 
 #[cfg(test)]
@@ -112,30 +117,33 @@ pub(crate) fn remove_flags(buffer: &mut [u8], flags: PacketFlag) -> crate::Resul
 /// Verify if buffer has the flags set.  
 /// WARNING: This information may be wrong if there is an OPT record in packet
 pub fn has_flags(buffer: &[u8], flags: PacketFlag) -> crate::Result<bool> {
-    buffer[2..4]
-        .try_into()
+    buffer
+        .get(2..4)
+        .and_then(|bytes| bytes.try_into().ok())
         .map(u16::from_be_bytes)
         .map(|bits| PacketFlag::from_bits_truncate(bits).contains(flags))
-        .map_err(|_| crate::SimpleDnsError::InvalidHeaderData)
+        .ok_or(crate::SimpleDnsError::InvalidHeaderData)
 }
 
 /// Get the RCODE from the buffer.  
 /// WARNING: This information may be wrong if there is an OPT record in packet
 pub fn rcode(buffer: &[u8]) -> crate::Result<RCODE> {
-    buffer[2..4]
-        .try_into()
+    buffer
+        .get(2..4)
+        .and_then(|bytes| bytes.try_into().ok())
         .map(u16::from_be_bytes)
         .map(|flags| (flags & masks::RESPONSE_CODE_MASK).into())
-        .map_err(|_| crate::SimpleDnsError::InvalidHeaderData)
+        .ok_or(crate::SimpleDnsError::InvalidHeaderData)
 }
 
 /// Get the OPCODE from the buffer
 pub fn opcode(buffer: &[u8]) -> crate::Result<OPCODE> {
-    buffer[2..4]
-        .try_into()
+    buffer
+        .get(2..4)
+        .and_then(|bytes| bytes.try_into().ok())
         .map(u16::from_be_bytes)
         .map(|flags| ((flags & masks::OPCODE_MASK) >> masks::OPCODE_MASK.trailing_zeros()).into())
-        .map_err(|_| crate::SimpleDnsError::InvalidHeaderData)
+        .ok_or(crate::SimpleDnsError::InvalidHeaderData)
 }
 
 #[cfg(test)]
